@@ -1,7 +1,8 @@
 ----------------------------- MODULE CmdLine_Gen -----------------------------
-(* (G) Same state space and invariants as CmdLine_MC; in addition cases for the replay into the real asl / p2bin / plist: every template sequence of <= MaxOcc occurrences of   *)
-(* Prog in the placements of CmdLineCases (Thin = 1: sequences of two and more occurrences get the plain command-     *)
-(* line placement and three more, rotating with the sequence, so that every placement meets every template pair).      *)
+(* (G) Same state space and invariants as CmdLine_MC; in addition cases for the replay into the real asl / p2bin /    *)
+(* plist: every template sequence of <= MaxOcc occurrences of Prog in the placements of CmdLineCases (Thin = 0: all    *)
+(* of them; Thin = k > 0: sequences of two and more occurrences get the plain command-line placement and k more,       *)
+(* rotating with the sequence, so that every placement meets every template and many template pairs).                  *)
 (* Every printed case carries the concrete words (environment value, key files line by line, argv) and                 *)
 (*   exp      what the scanner AS CODED leads to (Run(Scan(I, Devs)))  - what the real program is expected to do        *)
 (*   doc      what the manual's reading leads to (Run(Spec(I))), "open" where the manual does not decide               *)
@@ -17,12 +18,12 @@ Render(w) == FoldLeft(LAMBDA a, b : a \o b, w.lead \o w.pfx, w.body)
 RenderLine(ws) == [i \in 1..Len(ws) |-> Render(ws[i])]
 
 PlOrder(n) == <<[k |-> "argvlast", j |-> 0], [k |-> "env", j |-> 0], [k |-> "key", j |-> 0], [k |-> "envkey", j |-> 0],
-                [k |-> "key1line", j |-> 0]>> \o [j \in 1..(n - 1) |-> [k |-> "split", j |-> j]] \o [j \in 1..n |-> [k |-> "keymid", j |-> j]]
+                [k |-> "key1line", j |-> 0], [k |-> "keytab", j |-> 0], [k |-> "keymix", j |-> 0]>> \o [j \in 1..(n - 1) |-> [k |-> "split", j |-> j]] \o [j \in 1..n |-> [k |-> "keymid", j |-> j]]
 Sum(s) == FoldLeft(LAMBDA a, b : a + b, 0, s)
 Chosen(s) == LET n == Len(s)
                  o == PlOrder(n)
              IN IF Thin = 0 \/ n < 2 THEN Placements(n)
-                ELSE {[k |-> "argv", j |-> 0]} \cup {o[((Sum(s) + s[1] + 3 * d) % Len(o)) + 1] : d \in 0..2}
+                ELSE {[k |-> "argv", j |-> 0]} \cup {o[((Sum(s) + s[1] + 3 * d) % Len(o)) + 1] : d \in 0..(Thin - 1)}
 
 \* the components of an expectation that doc/ states (everything else the model predicts is reported as drift only)
 Stated == IF Prog = "asl" THEN {"status", "outs", "banner", "list", "x", "g"} ELSE {"status", "cfg", "files"}
@@ -30,18 +31,29 @@ OutStated(e, d) == \* per output file: name, target, symbol values; the include 
   e.status = d.status /\ (e.status = 0 => ~e.incboth)
 Bearing(e, d) == {f \in Stated \cap DOMAIN e : f \in DOMAIN d /\ d[f] = e[f] /\ (Prog = "asl" /\ f = "outs" => OutStated(e, d))}
 
-Case(s, pl) ==
-  LET I    == Place(Prog, s, pl)
-      it   == Items(Prog, I)
+\* a key-file line as text
+LineText(ws) == IF ws = <<>> THEN ""
+                ELSE FoldLeft(LAMBDA a, i : IF IsTabSep(ws[i]) THEN a \o "\t"
+                                            ELSE IF IsTabSep(ws[i - 1]) THEN a \o Render(ws[i]) ELSE a \o " " \o Render(ws[i]),
+                              Render(ws[1]), [i \in 1..(Len(ws) - 1) |-> i + 1])
+CaseOf(I, names, pl) ==
+  LET it   == Items(Prog, I)
       open == Open(Prog, it)
-      e    == Run(Prog, Scan(Prog, I, Devs))
-      d    == Run(Prog, Meaning(Prog, it))
-  IN [prog |-> Prog, seq |-> [i \in 1..Len(s) |-> Templates(Prog)[s[i]].n], pl |-> pl,
+      e    == Outcome(Prog, I, Devs)
+      d    == IF I.argv = <<>> THEN DocOutcome(Prog, I) ELSE Run(Prog, Meaning(Prog, it))
+  IN [prog |-> Prog, seq |-> names, pl |-> pl,
       env |-> RenderLine(I.env), argv |-> RenderLine(I.argv),
-      keys |-> [k \in DOMAIN I.keys |-> [i \in 1..Len(I.keys[k]) |-> RenderLine(I.keys[k][i])]],
-      exp |-> e, open |-> open, doc |-> IF open THEN [status |-> "open"] ELSE d,
+      keys |-> [k \in DOMAIN I.keys |-> [i \in 1..Len(I.keys[k]) |-> LineText(I.keys[k][i])]],
+      exp |-> e, open |-> open, doc |-> IF open THEN [status |-> Undefined] ELSE d,
       bearing |-> IF open THEN {} ELSE Bearing(e, d),
       live |-> LiveDevs(Prog, I), klass |-> it]
+Case(s, pl) == CaseOf(Place(Prog, s, pl), [i \in 1..Len(s) |-> Templates(Prog)[s[i]].n], pl)
 
-Emit == \A pl \in Chosen(seq) : PrintT(<<"TR", ToJson(Case(seq, pl))>>)
+\* parameter counts around the size of the Unprocessed[] mask (256 parameters fit)
+BulkSizes == {MAXPARAM - Len(Main(Prog)), MAXPARAM - Len(Main(Prog)) + 1, 300, 1500}
+Emit == /\ \A pl \in Chosen(seq) : PrintT(<<"TR", ToJson(Case(seq, pl))>>)
+        /\ seq = <<>> /\ Prog # "plist" =>                 \* no parameter at all, with and without a preset in the environment variable
+              \A e \in {<<>>, <<S("-", <<"q">>)>>} :
+                 PrintT(<<"TR", ToJson(CaseOf([env |-> e, keys |-> "kd" :> FixedKey(Prog), argv |-> <<>>], <<"noparams">>, [k |-> "env", j |-> Len(e)]))>>)
+        /\ seq = <<>> => \A n \in BulkSizes : PrintT(<<"TR", ToJson(CaseOf(Bulk(Prog, n), <<"bulk">>, [k |-> "argv", j |-> n]))>>)
 =============================================================================
